@@ -11,6 +11,11 @@ import (
 )
 
 func main() {
+	if len(os.Args) >= 2 && os.Args[1] == "--worker" {
+		sched.Virtual = true
+		core.WorkerMain()
+		return
+	}
 	if len(os.Args) < 3 {
 		fmt.Fprintln(os.Stderr, "usage: vcheck <ID> <quick|thorough>")
 		os.Exit(2)
